@@ -34,6 +34,7 @@ class Recorder:
     def __init__(self):
         self.orders = []  # (order, old, new, caller)
         self.trades = []  # (trade, old, new)
+        self.completed = []  # (order, size_matched when it was reported complete)
 
     def __enter__(self):
         import sys
@@ -44,6 +45,8 @@ class Recorder:
         def o_upd(self_, status):
             f = sys._getframe(2)
             rec.orders.append((self_, self_.status, status, "%s:%s" % (f.f_code.co_filename.rsplit("/", 1)[-1], f.f_code.co_name)))
+            if status == S.EXECUTION_COMPLETE and not any(o is self_ for o, _ in rec.completed):
+                rec.completed.append((self_, self_.size_matched))
             return rec._o(self_, status)
 
         def t_upd(self_, status):
